@@ -178,6 +178,10 @@ def main(tier="quick"):
     t7 = (not mut["ok"]) and mut["failed"] > 0
     print("%-34s %s   (whole-sample fold in SrcExt('symmetric'): %s of %s obligations fail)" % ("TLAPS binding", "ok" if t7 else "FAILED", mut["failed"], mut["obligations"]))
     ok &= t7
+    mut = proofs.prove("DWT1Proofs", mutate=("LET pos == 2 * m + (L - 1 - t)", "LET pos == 2 * m + t", "DWT1Src.tla"))
+    t8 = (not mut["ok"]) and mut["failed"] > 0
+    print("%-34s %s   (afb1d model reading the stored taps unflipped: %s of %s obligations fail)" % ("TLAPS binding (DWT1)", "ok" if t8 else "FAILED", mut["failed"], mut["obligations"]))
+    ok &= t8
     for m in rep.machinery[:5]:
         print("machinery:", m)
     ok &= not rep.machinery
